@@ -176,6 +176,7 @@ func checkC03(c *core.Ctx) error {
 		}
 		checkSparseKernel(c, pkg, "C03.R3", fd, "(*"+T+")."+fd.Name.Name, op, scalarB)
 	})
+	checkSparseAccumulation(c)
 	// R4
 	core.EachFunc(pkg, func(_ *ast.File, fd *ast.FuncDecl) {
 		T := core.RecvTypeName(fd)
